@@ -84,7 +84,7 @@ class BeamFresh:
         return any(bc[0] == "L" for bc in self.bcs)
 
     def gen_op(self, rng, frng):
-        w = {"beam_param": 4, "dirichlet": 3 if self._anchored() else 8, "neumann": 2.5, "connection": 3 if not self._connected() else 0.2, "bc_init": 0.3,
+        w = {"beam_param": 4, "dirichlet": 3 if self._anchored() else 8, "neumann": 2.5, "connection": 3 if not self._connected() else 0.0, "bc_init": 0.3,
              "solve": 5 if (self._anchored() and self._connected()) else 0, "kcmf": 3, "result": 1.5 if self.solved else 0, "save_iter": 1, "set_iter": 0.7 if self.iters else 0}
         names = sorted(w)
         p = np.array([w[k] for k in names], dtype=float)
